@@ -96,6 +96,18 @@ type replayCtx struct {
 	strs    map[string]string
 	mode    Mode
 	err     string
+	model   map[string]*sexp
+	inputs  []ModelVar
+	cur     string // name of the model variable being rendered (for pointee / time lookups)
+}
+
+func (rc *replayCtx) lookup(name string) *sexp {
+	for _, mv := range rc.inputs {
+		if mv.Name == name {
+			return rc.model[mv.Term]
+		}
+	}
+	return nil
 }
 
 func (rc *replayCtx) typeName(t types.Type) string {
@@ -143,6 +155,16 @@ func smtInt(x *sexp, mode Mode) (int64, bool) {
 
 // goLiteral converts an SMT model value into a Go expression of type t.
 func (rc *replayCtx) goLiteral(x *sexp, t types.Type) string {
+	if t.String() == "time.Time" {
+		if nv := rc.lookup(rc.cur + "#nano"); nv != nil {
+			if n, ok := smtInt(nv, rc.mode); ok {
+				rc.imports["time"] = "time"
+				return fmt.Sprintf("time.Unix(0, %d).UTC()", n)
+			}
+		}
+		rc.err = "time value without a UnixNano model"
+		return "time.Time{}"
+	}
 	switch u := t.Underlying().(type) {
 	case *types.Basic:
 		switch {
@@ -224,6 +246,29 @@ func (rc *replayCtx) goLiteral(x *sexp, t types.Type) string {
 		v, ok := smtInt(x, rc.mode)
 		if ok && v == 0 {
 			return "nil"
+		}
+		if s, isStruct := u.Elem().Underlying().(*types.Struct); isStruct && rc.cur != "" && !strings.Contains(rc.cur, ".") {
+			base := rc.cur
+			var fs []string
+			for i := 0; i < s.NumFields(); i++ {
+				f := s.Field(i)
+				fv := rc.lookup(base + "." + f.Name())
+				if fv == nil {
+					rc.err = "no model for field " + f.Name()
+					return "nil"
+				}
+				if !f.Exported() && f.Pkg() != rc.pkg {
+					continue
+				}
+				switch f.Type().Underlying().(type) {
+				case *types.Pointer, *types.Interface, *types.Map, *types.Signature, *types.Chan:
+					continue // left nil: only one level is rebuilt
+				}
+				rc.cur = base + "." + f.Name()
+				fs = append(fs, f.Name()+": "+rc.goLiteral(fv, f.Type()))
+			}
+			rc.cur = base
+			return "&" + rc.typeName(u.Elem()) + "{" + strings.Join(fs, ", ") + "}"
 		}
 		rc.err = "non-nil pointer parameter not replayable"
 		return "nil"
@@ -315,7 +360,7 @@ func tryReplay(prog *Program, r *OblResult, repo string) (bool, string) {
 	if model == nil {
 		return false, "cannot parse model"
 	}
-	rc := &replayCtx{imports: map[string]string{}, pkg: fnPkg(fn), strs: map[string]string{}, mode: r.Fn.VC.mode}
+	rc := &replayCtx{imports: map[string]string{}, pkg: fnPkg(fn), strs: map[string]string{}, mode: r.Fn.VC.mode, model: model, inputs: r.O.Inputs}
 	var args []string
 	var fixes []string
 	for _, mv := range r.O.Inputs {
@@ -336,6 +381,7 @@ func tryReplay(prog *Program, r *OblResult, repo string) (bool, string) {
 		if mvv == nil {
 			return false, "parameter " + p.Name() + " is not plain data"
 		}
+		rc.cur = p.Name()
 		lit := rc.goLiteral(model[mvv.Term], p.Type())
 		if rc.err != "" {
 			return false, "replay unsupported: " + rc.err
